@@ -1,6 +1,6 @@
 """Property -> what decides it (units under contract, extra obligation groups, covers, bounded native oracle)."""
 from __future__ import annotations
-from . import native_ode
+from . import native_ode, rates, templates, conservation
 
 ODE_UNIT = ("contracts.ode", "prepare_ode_content")
 
@@ -17,6 +17,7 @@ PROPERTIES = {
         "level": "proof",
         "units": [ODE_UNIT],
         "oracle": native_ode.oracle_for("C01"),
+        "extra": [templates.fex_template_items, templates.macros_template_items],
         "trusted_base": _ode_trusted,
         "explanation": "loop invariants and postconditions of _prepare_ode_content: den(fex[i]) == sum_r (cntP-cntR) k_r prod y + modifier terms; thermal equation; unbounded in species/reactions/modifier entries",
     },
@@ -24,13 +25,40 @@ PROPERTIES = {
         "level": "proof",
         "units": [ODE_UNIT],
         "oracle": native_ode.oracle_for("C02"),
+        "extra": [templates.jacobian_template_items],
         "trusted_base": _ode_trusted + ["bridge L1 (stated definition): sum over occurrences m of slot j of the product of the other occurrences IS d/dy_j of the monomial"],
     },
     "C03": {
         "level": "proof",
         "units": [ODE_UNIT],
         "oracle": native_ode.oracle_for("C03"),
+        "extra": [templates.jacobian_template_items, templates.macros_template_items],
         "trusted_base": _ode_trusted,
+    },
+    "C04": {
+        "level": "proof",
+        "units": [ODE_UNIT],
+        "extra": [conservation.items, templates.fex_template_items],
+        "oracle": native_ode.oracle_for("C04"),
+        "trusted_base": _ode_trusted + ["bridge L2 (stated): exchange of the finite sums over species and reactions",
+                                        "species identity (Species.__eq__/__hash__ is an equivalence with one slot per class) and GetElementAbund are checked only by the bounded native oracle"],
+        "contract_files": ["conservation.py"],
+    },
+    "C05": {
+        "level": "proof",
+        "units": [("contracts.rates", "gas_rateexpr")],
+        "extra": [rates.table_checks],
+        "trusted_base": ["laws written from the KIDA / UMIST RATE12 / Walsh 2015 / UCLCHEM documentation (contracts/laws_gas.py)",
+                         "exp, pow, sqrt uninterpreted except pow(x,0)==1, exp(0)==1",
+                         "requires: Tgas > 0, 0 <= omega < 1, zism > 0; coefficients finite floats"],
+        "contract_files": ["rates.py", "laws_gas.py"],
+    },
+    "C06": {
+        "level": "proof",
+        "units": [("contracts.rates", "assign_rates")],
+        "extra": [rates.lemma_adjacent_windows, templates.rate_array_scan_items],
+        "trusted_base": ["assumed contract of rateexpr (C05/C11): a C expression", "KROME window syntax and k zero-initialisation: see contracts/templates.py"],
+        "contract_files": ["rates.py"],
     },
     "C13": {
         "level": "proof",
